@@ -601,6 +601,46 @@ def is_strong(segs):
     return True
 
 
+def expand_phi(segs, limit=16):
+    """Alternatives of a normal form with its `phi` segments chosen one way or the other: [segs, ..] (None when there
+    would be more than `limit`).  A byte string that is `a ‖ (x or y)` is decided as the two strings `a ‖ x`, `a ‖ y`."""
+    outs = [[]]
+    for sg in segs:
+        if sg[0] == "phi":
+            alts = []
+            for a in sg[1]:
+                sub = expand_phi(list(a), limit)
+                if sub is None:
+                    return None
+                alts += sub
+            outs = [o + a for o in outs for a in alts]
+        else:
+            outs = [o + [sg] for o in outs]
+        if len(outs) > limit:
+            return None
+    return outs
+
+
+def decide(segs, match):
+    """(ok, weak) of comparing a normal form with a pinned shape: every phi-alternative must match; an alternative that
+    is fully known and different is a mismatch (not a weak pass); only alternatives with unknown parts count as weak."""
+    alts = expand_phi(segs)
+    if alts is None:
+        return False, not clobbers(segs)
+    res = []
+    for a in alts:
+        if clobbers(a):
+            res.append("bad")
+        elif match(a):
+            res.append("ok")
+        elif is_strong(a):
+            res.append("bad")
+        else:
+            res.append("weak")
+    ok = all(r == "ok" for r in res)
+    return ok, (not ok and "bad" not in res)
+
+
 def seg_atoms(segs):
     """Atoms (value terms) of a normal form, in order."""
     out = []
